@@ -15,6 +15,14 @@ kind of refusal).  The driver writes the chunks, opens the file with ELFFile and
   * the same stream with relocate_dwarf_sections=False with the section's original bytes;
   * mode loads: ONE ELFFile asked 2-3 times, every sequence of relocate_dwarf_sections flags: each call's stream with the answer
     the spec's load machine gives for that call's flag (relocated buffer / ELFRelocationError / original bytes).
+  * mode secaddr: the same comparison on ET_REL images whose symbols are DEFINED IN SECTIONS (.text / .data) that carry addresses
+    (0 / small / high bit): the expectation is the apply machine's buffer, S = st_value whatever sh_addr says (clauses secaddr.*).
+  * mode stack: 2-3 relocations on ONE field (same r_offset) in table order - REL S+A / S+A-P and the LoongArch ADDn / SUBn - the
+    field must hold what sequential application leaves (= in-place value + the sum of the terms; clauses stack.*).
+  * mode sess (cfg Reloc_sess[_thorough]): ONE table object (SHT_RELR section, .rel/.rela section, a REL / RELA / JMPREL / RELR table
+    from get_relocation_tables() of the .dynamic section or the PT_DYNAMIC segment) is sent a sequence of calls (iterator abandoned
+    after k items, num_relocations, get_relocation(i), full iteration, one more item of a held iterator); per call the answer the
+    spec's session machine emitted (clauses sess.<call>, tag = table kind : the calls before this one).
 RELR cases (modes relr / relrset) carry an image with one SHT_RELR section and the address sequence the
 RELR machine yields; compared with RelrRelocationSection.iter_relocations / num_relocations /
 get_relocation.  Dynamic cases (mode dyn) carry an ET_DYN image whose REL / RELA / JMPREL / RELR tables are named by the
@@ -169,13 +177,16 @@ def _claims_support(machine, types):
     return False
 
 
-def _apply(run, case, data, ELFFile, bad, stats):
+def _apply(run, case, data, ELFFile, bad, stats, pre='apply'):
+    """pre = 'secaddr': per field the tag also says where the relocation's symbol is defined (case['defs'][j] = <<st_shndx, class of
+    that section's sh_addr>>, from the spec)."""
+    defs = case.get('defs')
     mname = '%s/%d' % (MACH.get(case['machine'], str(case['machine'])), case['cls'])
     fl = 'RELA' if case['rela'] else 'REL'
     orig = bytes(case['orig'])
     got0 = _load(ELFFile, data, False)
     if got0 != orig:
-        bad('apply.unrelocated', 'original section bytes', got0 if isinstance(got0, dict) else list(got0[:64]))
+        bad(pre + '.unrelocated', 'original section bytes', got0 if isinstance(got0, dict) else list(got0[:64]))
     got1 = _load(ELFFile, data, True)
     if case['err']:
         stats['refused'] += 1
@@ -185,17 +196,17 @@ def _apply(run, case, data, ELFFile, bad, stats):
             return
         if not (isinstance(got1, dict) and got1['exc'] == 'ELFRelocationError'):
             obs = got1 if isinstance(got1, dict) else ('no exception; section %s' % ('unchanged' if got1 == orig else 'modified'))
-            bad('apply.error', 'ELFRelocationError', obs, tag='%s:%s:%s' % (case['err'], mname, fl))
+            bad(pre + '.error', 'ELFRelocationError', obs, tag='%s:%s:%s' % (case['err'], mname, fl))
         return
     want = bytes(case['bytes'])
     if isinstance(got1, dict):
-        bad('apply.raises', 'relocated bytes', got1, tag='%s:%s:%s' % (mname, case['sub'], fl))
+        bad(pre + '.raises', 'relocated bytes', got1, tag='%s:%s:%s' % (mname, case['sub'], fl))
         return
     stats['applied'] += len(case['fields'])
     if got1 == want:
         return
     if len(got1) != len(want):
-        bad('apply.length', len(want), len(got1))
+        bad(pre + '.length', len(want), len(got1))
         return
     inside = set()
     seen = set()
@@ -203,16 +214,21 @@ def _apply(run, case, data, ELFFile, bad, stats):
         inside.update(range(off, off + w))
         if got1[off:off + w] != want[off:off + w]:
             tag = '%s:%s:%s:%s' % (mname, case['sub'], fl, cl)
+            if defs:
+                sh, ac = defs[j]
+                tag = '%s:%s:%s:%s' % (mname, case['sub'], fl, 'absolute' if sh == 0xfff1 else 'defined-in-section-at-' + ac)
             if tag in seen:
                 continue                      # one report per input class and image
             seen.add(tag)
             e = case['entries'][j]
-            bad('apply.field', {'field': list(want[off:off + w])}, {'field': list(got1[off:off + w])}, tag=tag,
-                more={'r_offset': off, 'width': w, 'S_index': _u(e[2]), 'A': _s(e[4]) if case['rela'] else None,
-                      'in_place': list(orig[off:off + w])})
+            more = {'r_offset': off, 'width': w, 'S_index': _u(e[2]), 'A': _s(e[4]) if case['rela'] else None,
+                    'in_place': list(orig[off:off + w])}
+            if defs:
+                more.update({'st_shndx': defs[j][0], 'sh_addr_of_.text_.data': case['addrs']})
+            bad(pre + '.field', {'field': list(want[off:off + w])}, {'field': list(got1[off:off + w])}, tag=tag, more=more)
     outside = [i for i in range(len(want)) if i not in inside and got1[i] != want[i]]
     if outside:
-        bad('apply.untouched', 'bytes outside every field unchanged', {'changed_at': outside[:8]},
+        bad(pre + '.untouched', 'bytes outside every field unchanged', {'changed_at': outside[:8]},
             tag='%s:%s:%s' % (mname, case['sub'], fl))
 
 
@@ -358,6 +374,106 @@ def _dyn(run, case, ef, bad):
             elif got != exp:
                 k = next(k for k in exp if got[k] != exp[k])
                 bad('dyn.' + k, exp[k], got[k], field='%s:%s' % (hname, name))
+
+
+# ------------------------------------------------------------------------------------------ client sessions
+_STOP = object()
+
+
+def _sess_table(ef, o):
+    """The ONE table object of a session, obtained the public way the spec's object names."""
+    if o['kind'] == 'relrsec':
+        return ef.get_section_by_name('.relr.dyn')
+    if o['kind'] == 'relsec':
+        return ef.get_section_by_name(('.rela' if o['rela'] else '.rel') + '.debug_info')
+    holder = ef.get_section_by_name('.dynamic') if o['via'] == 'section' else ef.get_segment(1)
+    return holder.get_relocation_tables()[o['tab']]
+
+
+def _sessions(run, out, ELFFile, stats):
+    """Mode sess: every emitted call sequence is replayed on a freshly obtained table object; each call's answer is compared with the
+    one the session machine emitted for that call."""
+    import itertools
+    objs, sessions = {}, []
+    for c in run.cases(out):
+        if c.get('mode') != 'sess':
+            raise core.MachineryError('unexpected case in the session run: %r' % (c.get('mode'),))
+        if c['part'] == 'obj':
+            c['data'] = concretise(c['chunks'])
+            if c['id'] in objs:
+                raise core.MachineryError('two session objects share the id %s' % c['id'])
+            objs[c['id']] = c
+        else:
+            sessions.append(c)
+    if not objs or not sessions:
+        raise core.MachineryError('the session run emitted %d objects, %d sessions' % (len(objs), len(sessions)))
+    for sc in sessions:
+        o = objs.get(sc['id'])
+        if o is None:
+            raise core.MachineryError('session of an unknown object %s' % sc['id'])
+        relr = o['tab'] == 'RELR'
+        mips64 = o['cls'] == 64 and o['machine'] == 8
+        rela = o['rela']
+        what = '%s/%s' % (o['kind'], o['tab']) if o['kind'] != 'dyn' else 'dyn-%s/%s' % (o['via'], o['tab'])
+        names = ['%s%s' % (c[0], c[1] if c[0] in ('abandon', 'get') else '') for c in sc['calls']]
+        key = core.digest([sc['id'], names])
+        run.count(key, nontrivial=len(names) > 1)
+        stats['session_calls'] = stats.get('session_calls', 0) + len(names)
+        brief = {'mode': 'sess', 'table': what, 'cls': o['cls'], 'le': o['le'], 'machine': o['machine'], 'rela': rela, 'calls': names,
+                 'bytes_b64': core.b64(o['data'])}
+
+        def want_items(items):
+            if relr:
+                return [_u(a) for a in items]
+            return [dict(_want_entry(e, mips64, rela), is_RELA=rela) for e in items]
+
+        def got_items(rs, want):
+            if relr:
+                return [r['r_offset'] for r in rs]
+            return [_got_entry(r, w, mips64, rela) for r, w in zip(rs, want)] + ['extra'] * max(0, len(rs) - len(want))
+        try:
+            with core.guard(20):
+                t = _sess_table(ELFFile(io.BytesIO(o['data'])), o)
+        except Exception as ex:
+            run.mismatch('sess.open', what, brief, 'the table object', 'exc:%s:%s' % (type(ex).__name__, ex))
+            continue
+        held, kept = None, []
+        for i, (name, arg, n, items) in enumerate(sc['calls']):
+            want = n if name == 'num' else want_items(items)
+            try:
+                with core.guard(20):
+                    if name == 'abandon':
+                        it = t.iter_relocations()
+                        rs = list(itertools.islice(it, arg))
+                        if arg % 2:
+                            it.close() if hasattr(it, 'close') else None          # dropped explicitly ...
+                        else:
+                            kept.append(it)                                        # ... or left suspended until the session ends
+                        got = got_items(rs, want)
+                    elif name == 'num':
+                        got = t.num_relocations()
+                    elif name == 'get':
+                        got = got_items([t.get_relocation(arg)], want)
+                    elif name == 'full':
+                        got = got_items(list(t.iter_relocations()), want)
+                    elif name == 'next':
+                        if held is None:
+                            held = iter(t.iter_relocations())
+                        x = next(held, _STOP)
+                        got = got_items([] if x is _STOP else [x], want)
+                    else:
+                        raise core.MachineryError('unknown session call %r' % name)
+            except core.MachineryError:
+                raise
+            except Exception as ex:
+                got = 'exc:%s:%s' % (type(ex).__name__, str(ex)[:100])
+            if got != want:
+                def show(v):
+                    return [hex(x) for x in v[:12]] if relr and isinstance(v, list) else v
+                run.mismatch('sess.' + names[i], '%s:after(%s)' % (what, ','.join(names[:i])), dict(brief, call=i), show(want), show(got))
+                break
+    stats['session_objects'] = len(objs)
+    return len(sessions)
 
 
 # ------------------------------------------------------------------------------------------ T
@@ -543,18 +659,22 @@ def check(run):
                 'relocations = 7 in-place x 7 symbol values), refusal images (unsupported type / flavour / symbol index), RELR '
                 'streams, RELR encodings of address sets, images with dynamic-tag tables, flag sequences of 2-3 loads of one opened file; T events = clusters of corpus relocations; non-trivial = table '
                 'with >= 1 entry or RELR stream with >= 1 bitmap; distinct by emitted image')
-    run.assumptions += ['relocated fields lie inside the section; sections of a relocatable object have address 0',
-                        'symbols are absolute STT_NOTYPE symbols (no ARM T bit); MIPS64 composed relocations are not applied',
+    run.assumptions += ['relocated fields lie inside the section; the RELOCATED section of a relocatable object has address 0 (sections that define symbols have any)',
+                        'symbols are STT_NOTYPE symbols, absolute or defined in a section (no ARM T bit); MIPS64 composed relocations are not applied',
                         'ARM/RELA, AArch64/REL, R_ARM_CALL, R_MIPS_64/REL and EM_BPF are not asserted (psABI admits both or is unclear)',
                         'RELR streams start with an anchor and stay inside the address space',
                         'r_info of a MIPS64 entry = the number its eight info bytes denote in field order (sym, ssym, type3, type2, type), '
                         'i.e. what the r_info xword holds in a big-endian object']
     cfg = 'Reloc_quick' if run.tier == 'quick' else 'Reloc_thorough'
     from concurrent.futures import ThreadPoolExecutor
-    with ThreadPoolExecutor(max_workers=1) as ex:
-        fut = ex.submit(run.tlc, 'Reloc', 'Reloc_loads', None, 2)          # the call-sequence mode: a small run beside the main one
-        res = run.tlc('Reloc', cfg)
+    side = 2 if core.NPROC >= 12 else 1
+    with ThreadPoolExecutor(max_workers=2) as ex:
+        # the call-sequence modes (loads + secaddr, client sessions): two small runs beside the main one
+        fut = ex.submit(run.tlc, 'Reloc', 'Reloc_loads', None, side)
+        fut_sess = ex.submit(run.tlc, 'Reloc', 'Reloc_sess' if run.tier == 'quick' else 'Reloc_sess_thorough', None, side)
+        res = run.tlc('Reloc', cfg, workers=max(1, core.NPROC - 2 * side))
         res_loads = fut.result()
+        res_sess = fut_sess.result()
     seen = set()
     stats = {'applied': 0, 'refused': 0, 'decode_entries': 0, 'relr_addresses': 0, 'dynamic_tables': 0}
     bymode = {}
@@ -566,7 +686,7 @@ def check(run):
             continue
         seen.add(key)
         data = concretise(case['chunks'])
-        table = mode in ('decode', 'apply', 'errors')
+        table = mode in ('decode', 'apply', 'errors', 'secaddr', 'stack')
         nontriv = bool(case['entries']) if table else bool(case['view']['present']) if mode == 'dyn' else True if mode in ('twotabs', 'loads') \
             else any(w[0] % 2 for w in case['words'])
         run.count(key, nontrivial=nontriv)
@@ -593,7 +713,7 @@ def check(run):
                 _decode(run, case, ef, bad)
                 stats['decode_entries'] += len(case['entries'])
                 if mode != 'decode':
-                    _apply(run, case, data, ELFFile, bad, stats)
+                    _apply(run, case, data, ELFFile, bad, stats, pre=mode if mode in ('secaddr', 'stack') else 'apply')
             elif mode == 'twotabs':
                 _twotabs(case, data, ELFFile, bad)
             elif mode == 'loads':
@@ -618,9 +738,13 @@ def check(run):
             elif mode != 'dyn':
                 smp.update({'words': case['words'], 'addrs': case['addrs']})
             run.samples.append(smp)
+    t_s = __import__('time').time()
+    bymode['sess'] = _sessions(run, res_sess.out, ELFFile, stats)
+    run.extra.setdefault('timing_s', {})['replay_sessions'] = round(__import__('time').time() - t_s, 1)
     run.validated = run.evaluations
     import time
-    run.extra['timing_s'] = {'tlc_g': round(res.wall, 1), 'replay_g': round(time.time() - run.t0 - res.wall, 1)}
+    run.extra['timing_s'].update({'tlc_g': round(res.wall, 1), 'tlc_loads': round(res_loads.wall, 1), 'tlc_sess': round(res_sess.wall, 1),
+                                  'replay_g': round(time.time() - run.t0 - max(res.wall, res_loads.wall, res_sess.wall), 1)})
     run.extra['cases_by_mode'] = bymode
     run.extra['g_totals'] = stats
     if not bymode:
